@@ -40,22 +40,42 @@ def _tracking_funcs(ctx, mod):
         sibs = add_stmt._parent.body if hasattr(add_stmt._parent, "body") else []
         i = next((k for k, s in enumerate(sibs) if s is add_stmt), None)
         nxt = sibs[i + 1] if i is not None and i + 1 < len(sibs) else None
+        # The pairing is decided inside the function that does the add, wherever that function is (a new helper included):
+        # the evidence is local to it, so the finding does not depend on the function being one of the reviewed tree.
+        is_cm = any(isinstance(n, (ast.Yield, ast.YieldFrom)) for n in ast.walk(f))
+        removes = [n for n in ast.walk(f) if isinstance(n, ast.Call) and dotted(n.func) in ("_seen.remove", "_seen.discard", "_seen.clear", "_seen.pop", "_seen.difference_update")]
         if not isinstance(nxt, pyq.TRY) or not nxt.finalbody:
-            ctx.bad("WRAP-PAIR", key, "`_seen.add(id(..))` is not immediately followed by a try/finally", REL, add.lineno,
-                    witness="as_model of a container holding an unwrappable object (e.g. a function) raises and leaves the id in _seen; "
-                            "promoting the same container again then reports a bogus self-reference")
+            # a removal exists but is not in a finally after the add -> the id leaks on an exception; no removal at all in
+            # a shape we do not know -> not recognised
+            verdict_msg = "`_seen.add(id(..))` is not immediately followed by a try/finally"
+            if removes or not is_cm:
+                ctx.bad("WRAP-PAIR", key, verdict_msg, REL, add.lineno, local=True,
+                        witness="as_model of a container holding an unwrappable object (e.g. a function) raises and leaves the id in _seen; "
+                                "promoting the same container again then reports a bogus self-reference")
+            else:
+                ctx.unres("WRAP-PAIR", key, verdict_msg)
             continue
         rem = pyq.contains(nxt.finalbody, lambda n: isinstance(n, ast.Call) and dotted(n.func) in ("_seen.remove", "_seen.discard")
                            and n.args and arg is not None and pyq.same_src(n.args[0], arg))
-        if rem is None:
-            ctx.bad("WRAP-PAIR", key, "the finally after `_seen.add` does not remove the same id", REL, nxt.lineno,
-                    witness="after any failed promotion the container is permanently reported as self-referential")
+        other = pyq.contains(nxt.finalbody, lambda n: isinstance(n, ast.Call) and dotted(n.func) in ("_seen.clear", "_seen.pop", "_seen.difference_update", "_seen.remove", "_seen.discard")
+                             and not (n.args and arg is not None and pyq.same_src(n.args[0], arg)))
+        if rem is None or other is not None:
+            ctx.bad("WRAP-PAIR", key, f"the finally after `_seen.add` does not remove exactly the same id (`{norm(other) if other is not None else 'nothing'}`)", REL, nxt.lineno, local=True,
+                    witness="after a promotion the ids of the enclosing containers are forgotten (a later back-reference recurses without bound), or the container stays marked")
             continue
-        # every recursive promotion in this function is inside the try body
+        # every recursive promotion in this function is inside the try body; a context-manager helper yields there instead
         rec = [c for c in pyq.calls(f) if dotted(c.func) == "as_model"]
         outside = [c for c in rec if not any(t is nxt for t in pyq.protecting_tries(c, None)) and not _in_lambda_or_gen_inside(c, nxt)]
         if not rec:
-            ctx.bad("WRAP-PAIR", key, "no recursive as_model call found in a function that marks ids as seen", REL, add.lineno)
+            ys = [n for n in ast.walk(f) if isinstance(n, (ast.Yield, ast.YieldFrom))]
+            if ys and all(any(t is nxt and part == "body" for t, part in pyq.enclosing_try_parts(y)) for y in ys):
+                ctx.ok("WRAP-PAIR", key, f"context manager: add; try: yield finally: remove ({norm(arg)})")
+                tracking.add(f.name)
+                continue
+            if ys:
+                ctx.bad("WRAP-PAIR", key, "the context manager yields outside the try that un-marks the id", REL, add.lineno, local=True)
+            else:
+                ctx.unres("WRAP-PAIR", key, "no recursive as_model call found in a function that marks ids as seen")
             continue
         if outside:
             ctx.bad("WRAP-PAIR", key, "a recursive as_model call lies outside the try that un-marks the id", REL, outside[0].lineno,
